@@ -9,6 +9,7 @@
    create_proof sends nothing except the Get of its internal read of a block that is not held.
    Partial by nature: that every subscriber receives the same sequence is a property of async_broadcast
    (capacity 32), covered by tools/c13.py with 1-3 subscribers and < 32 undrained events. *)
+From HC Require SrcOrder OrderTie.
 From HC Require Import SoundCoreLib SoundCore ReplicaCor.
 From HC Require Import Base NMap Codec Crypto FlatTree Storage Bitfield Oplog Merkle Core CoreFacts.
 From HC Require Import EventsAvail.
@@ -216,6 +217,16 @@ Theorem C13_replica_history_availability :
          Sound.some_collision cr \/ forged_signature cr bs (kp_public (c_keypair c)).
 Proof. exact replica_history_avail. Qed.
 
+(* Tie to the source (tools/srcorder.py): in append_batch and verify_and_apply_proof the events are sent AFTER the checkpoint, the
+   last storage operation of the call — so a call that fails at a storage operation has sent nothing. *)
+Theorem C13_source_events_after_last_storage_operation :
+  OrderTie.tied_order SrcOrder.src_order_append_batch OrderTie.model_order_append /\
+  OrderTie.tied_order SrcOrder.src_order_clear OrderTie.model_order_clear /\
+  OrderTie.tied_order SrcOrder.src_order_verify_and_apply_proof OrderTie.model_order_apply /\
+  OrderTie.tied_order SrcOrder.src_order_make_read_only OrderTie.model_order_read_only /\
+  OrderTie.tied_order SrcOrder.src_order_flush_bitfield_and_tree_and_oplog OrderTie.model_order_flush.
+Proof. exact OrderTie.source_order_is_the_models. Qed.
+
 Print Assumptions C13_append_events.
 Print Assumptions C13_apply_events.
 Print Assumptions C13_get_events.
@@ -241,3 +252,4 @@ Print Assumptions EventsAvail.apply_bounded_needs_store_invariant.
 Print Assumptions C13_replica_bits_below_length.
 Print Assumptions C13_accepted_proof_keeps_bits_below_length.
 Print Assumptions C13_replica_history_availability.
+Print Assumptions C13_source_events_after_last_storage_operation.
